@@ -1,6 +1,7 @@
 //! Obligations, one module per property.
 pub mod c03;
 pub mod c04;
+pub mod c06;
 pub mod c07;
 pub mod c08;
 pub mod c09;
